@@ -191,6 +191,10 @@ impl Client {
                     if let Some(search) = current_search.take() {
                         search.wait_cancel();
                     }
+
+                    // Also forget what earlier searches left behind, otherwise positions from the
+                    // previous game are still treated as repetitions in the new one
+                    previous_artifact = None;
                 }
                 Some((&"quit", _)) => break,
                 Some((&".state", _)) => {
